@@ -6,12 +6,12 @@ From FB Require Import C02.Model C02.Encode C02.Theory1 C02.Theory2 C02.Theory3 
   C02.Class C02.Decode C02.Facts C02.TheoryC1 C02.TheoryC2 C02.TheoryC3 C02.TheoryC4 C02.TheoryC5 C02.TheoryC6 C02.TheoryC7 C02.TheoryC8 C02.TheoryC10.
 Local Open Scope Z_scope.
 
-Definition wnp {A} (m : W A) : Prop := forall s, m s <> PANIC.
+Definition wnp {A} (m : W A) : Prop := forall s, m s <> WPANIC.
 Lemma wnp_ret {A} (a : A) : wnp (ret a). Proof. intros s. discriminate. Qed.
 Lemma wnp_bind {A B} (m : W A) (f : A -> W B) : wnp m -> (forall a, wnp (f a)) -> wnp (bind m f).
-Proof. intros H1 H2 s. unfold bind. specialize (H1 s). destruct (m s) as [[a s1]| |]; [apply H2|discriminate|congruence]. Qed.
-Lemma wnp_lift_res {A} (x : res A) : wnp (lift_res x). Proof. intros s. unfold lift_res. destruct x; discriminate. Qed.
-Lemma wnp_lift_out {A} (x : out A) : x <> PANIC -> wnp (lift_out x).
+Proof. intros H1 H2 s. unfold bind. specialize (H1 s). destruct (m s) as [[a s1]|c|]; [apply H2|discriminate|congruence]. Qed.
+Lemma wnp_lift_res {A} c (x : res A) : wnp (lift_res c x). Proof. intros s. unfold lift_res. destruct x; discriminate. Qed.
+Lemma wnp_lift_out {A} c (x : out A) : x <> PANIC -> wnp (lift_out c x).
 Proof. intros H s. unfold lift_out. destruct x; [discriminate|discriminate|congruence]. Qed.
 Lemma wnp_put c : wnp (put c). Proof. intros s. unfold put. destruct (pool_put _ _) as [[p i]|]; discriminate. Qed.
 Lemma wnp_mapW {A B} (f : A -> W B) l : (forall x, In x l -> wnp (f x)) -> wnp (mapW f l).
@@ -24,16 +24,16 @@ Proof.
   induction l as [|x l IH]; intros H; cbn [seqW]; [apply wnp_ret|].
   apply wnp_bind; [apply H; left; reflexivity|]. intros y. apply wnp_bind; [apply IH; intros z Hz; apply H; right; exact Hz|]. intros ys. apply wnp_ret.
 Qed.
-Lemma wnp_err {A} : wnp (fun _ : wst => @ERR (A * wst)). Proof. intros s. discriminate. Qed.
+Lemma wnp_err {A} c : wnp (@werr A c). Proof. intros s. discriminate. Qed.
 
 (* a tactic for writers built from the combinators *)
 Create HintDb wnp.
 Ltac np1 := match goal with
   | |- wnp (ret _) => apply wnp_ret
   | |- wnp (put _) => apply wnp_put
-  | |- wnp (lift_res _) => apply wnp_lift_res
+  | |- wnp (lift_res _ _) => apply wnp_lift_res
   | |- wnp (bind _ _) => apply wnp_bind; [|intros ?]
-  | |- wnp (fun _ => ERR) => apply wnp_err
+  | |- wnp (werr _) => apply wnp_err
   | |- wnp (match ?o with Some _ => _ | None => _ end) => destruct o
   | |- wnp (if ?b then _ else _) => destruct b
   | |- wnp (w_u16len _) => apply wnp_lift_res
@@ -231,6 +231,7 @@ Proof.
   rewrite (IH B), andb_true_r. destruct (snd i); cbn [lowered] in Hl.
   - rewrite Hl. reflexivity.
   - destruct Hl as (x & -> & _). reflexivity.
+  - destruct Hl as (x & n & -> & _). reflexivity.
   - destruct Hl as (x & -> & _). reflexivity.
   - rewrite Hl. reflexivity.
   - rewrite Hl. exact A.
@@ -262,18 +263,19 @@ Definition shape (i : cinsn) (e : entry) : Prop :=
   | IBr k l => e = Br k l
   | _ => exists bs, e = Plain bs
   end.
-Lemma lower_insn_shape i s e s' : lower_insn i s = OK (e, s') -> shape i e.
+Lemma lower_insn_shape i s e s' : lower_insn i s = WOK (e, s') -> shape i e.
 Proof.
   destruct i; cbn [lower_insn shape]; intros H.
   - apply ret_ok in H as [-> _]. eexists. reflexivity.
   - apply bind_ok in H as (x & s1 & _ & H). apply ret_ok in H as [-> _]. eexists. reflexivity.
+  - apply bind_ok in H as (x & s1 & _ & H). apply bind_ok in H as (n & s2 & _ & H). apply ret_ok in H as [-> _]. eexists. reflexivity.
   - apply bind_ok in H as (x & s1 & _ & H). apply ret_ok in H as [-> _]. eexists. reflexivity.
   - apply ret_ok in H as [-> _]. reflexivity.
   - apply ret_ok in H as [-> _]. reflexivity.
   - apply ret_ok in H as [-> _]. reflexivity.
 Qed.
 Lemma lower_all_shape : forall (is : list (option label * option cframe * cinsn)) s es s',
-  mapW (fun i => e <- lower_insn (snd i) ;; ret (fst (fst i), e)) is s = OK (es, s') ->
+  mapW (fun i => e <- lower_insn (snd i) ;; ret (fst (fst i), e)) is s = WOK (es, s') ->
   map fst es = map (fun i => fst (fst i)) is /\ Forall2 (fun i le => shape (snd i) (snd le)) is es.
 Proof.
   induction is as [|i is IH]; intros s es s'; cbn [mapW map].
@@ -296,7 +298,7 @@ Proof.
   intros Hok Hsp Hrg s. unfold ccode_ok in Hok. bsplit. unfold write_code_attr.
   destruct (c_max c) as [[ms ml]|]; [|discriminate].
   unfold bind at 1.
-  destruct (mapW (fun i => e <- lower_insn (snd i) ;; ret (fst (fst i), e)) (c_insns c) s) as [[es s1]| |] eqn:Elow; [|discriminate|].
+  destruct (mapW (fun i => e <- lower_insn (snd i) ;; ret (fst (fst i), e)) (c_insns c) s) as [[es s1]|?c|] eqn:Elow; [|discriminate|].
   2:{ exfalso. revert Elow. apply wnp_mapW. intros i _. np. }
   destruct (lower_all_shape _ _ _ _ Elow) as [Hes Hsh].
   assert (Hspans : spans_ok es = true) by (apply (spans_shape _ _ Hsh), Hsp).
@@ -309,14 +311,14 @@ Proof.
     unfold cranges_ok in Hrg. rewrite <- Hrg. apply ranges_ok_labels. unfold skel. rewrite map_map. cbn [fst]. exact Hes. }
   assert (Hnp : wnp (
     exc <- wslice16 (fun x =>
-                   t <- lift_out (try_get3 labs (x_start x, x_end x, x_handler x)) ;;
+                   t <- lift_out (ELabel labs [x_start x; x_end x; x_handler x]) (try_get3 labs (x_start x, x_end x, x_handler x)) ;;
                    ct <- put_opt put_class (x_catch x) ;;
                    ret (be16 (fst (fst t)) ++ be16 (snd (fst t)) ++ be16 (snd t) ++ be16 ct)) (c_exceptions c) ;;
     attrs <- wattrs (
             nattr (cframes_at (run_pos Wd 0%N init es) (c_insns c)) (fun frs => wattr s_StackMapTable (
                          n <- w_u16len (zlen frs) ;; fb <- w_frames labs None frs ;; ret (n ++ concat fb))) ++
             oattr (c_lines c) (fun l => wattr s_LineNumberTable (
-                         wslice16 (fun e => p <- lift_out (try_get labs (fst e)) ;; ret (be16 p ++ be16 (snd e))) l)) ++
+                         wslice16 (fun e => p <- lift_out (ELabel labs [fst e]) (try_get labs (fst e)) ;; ret (be16 p ++ be16 (snd e))) l)) ++
             match c_locals c with
             | None => []
             | Some lvs =>
@@ -391,7 +393,7 @@ Proof.
   intros Hok Hnp. unfold cclass_ok in Hok. bsplit. unfold cclass_np in Hnp.
   unfold write_class, write_class_aux.
   match goal with |- match (match ?body wst_new with _ => _ end) with _ => _ end <> _ =>
-    assert (Hb : wnp body); [|specialize (Hb wst_new); destruct (body wst_new) as [[[[rest codes] tbl] sF]| |]; [destruct (pool_bytes (w_pool sF)); discriminate|discriminate|congruence]] end.
+    assert (Hb : wnp body); [|specialize (Hb wst_new); destruct (body wst_new) as [[[[rest codes] tbl] sF]|?c|]; [destruct (pool_bytes (w_pool sF)); discriminate|discriminate|congruence]] end.
   apply wnp_bind; [auto with wnp|intros this]. apply wnp_bind; [apply wnp_put_opt; auto with wnp|intros super].
   apply wnp_bind; [apply wnp_wslice16; intros x _; apply wnp_idx16; auto with wnp|intros ifs].
   apply wnp_bind; [apply wnp_wslice16; intros x _; auto with wnp|intros fields].
